@@ -72,7 +72,16 @@ def hard_reset():
       s.clear()
       s.update(rec[1])
   cfg._PARSE_CONTEXTS[:] = [cfg.ParseContext()]
-  cfg._SCOPE_MANAGER._active_scopes = [[]]
+  reset_scope_manager()
+
+
+def reset_scope_manager():
+  """Drops every per-thread attribute of the scope manager (whatever they are called) so that it re-initialises."""
+  try:
+    vars(cfg._SCOPE_MANAGER).clear()
+  except TypeError:
+    pass
+  cfg._SCOPE_MANAGER.current_scope  # pylint: disable=pointless-statement  (forces re-initialisation)
 
 
 def internal_state():
